@@ -518,3 +518,32 @@ func CheckHooks(us *broker.UpState, send []HookChunk, acks []iscp.UpstreamChunkR
 	}
 	return nil
 }
+
+// SlowStorage wraps the library's in-memory sent storage (the one that keeps payloads) and stretches its operations in
+// real time. The sent storage is a pluggable component and may be as slow as a disk; slow operations move deadlines and
+// acks into the middle of the library's critical sections.
+type SlowStorage struct {
+	In                     iscp.VerifSentStorage
+	StoreD, RemoveD, ListD time.Duration
+}
+
+func NewSlowStorage(store, remove, list time.Duration) *SlowStorage {
+	return &SlowStorage{In: iscp.VerifNewInmemSentStorage(), StoreD: store, RemoveD: remove, ListD: list}
+}
+
+func (s *SlowStorage) Store(ctx context.Context, id uuid.UUID, seq uint32, d iscp.DataPointGroups) error {
+	time.Sleep(s.StoreD)
+	return s.In.Store(ctx, id, seq, d)
+}
+
+func (s *SlowStorage) Remove(ctx context.Context, id uuid.UUID, seq uint32) (iscp.DataPointGroups, error) {
+	time.Sleep(s.RemoveD)
+	return s.In.Remove(ctx, id, seq)
+}
+
+func (s *SlowStorage) List(ctx context.Context, id uuid.UUID) (map[uint32]iscp.DataPointGroups, error) {
+	time.Sleep(s.ListD)
+	return s.In.List(ctx, id)
+}
+
+func (s *SlowStorage) Clear(ctx context.Context, id uuid.UUID) error { return s.In.Clear(ctx, id) }
